@@ -229,8 +229,8 @@ SCRUB_REGION = dict(region='scrub_limits', file='cmdline/scrub.c', begin='/* no 
 
 SCRUB_MARK = dict(region='scrub_mark', file='cmdline/scrub.c', begin='/* until now is raid */',
                   end='/* mark the state as needing write */', max_lines=34, expect_loops=1, brace_balance=-1,
-                  proto='static void region_scrub_mark(struct snapraid_state *state, int silent_error_on_this_block, int io_error_on_this_block, int error_on_this_block, int rehash, struct snapraid_rehash *rehandle, unsigned diskmax, block_off_t blockcur, snapraid_info info, time_t now)',
-                  prologue='\tunsigned j;\n\tif (1) { /* the region text starts with the last statement and the closing brace of the parity compare block */')
+                  proto='static void region_scrub_mark(struct snapraid_state *state, int silent_error_on_this_block, int io_error_on_this_block, int error_on_this_block, int rehash, struct snapraid_rehash *rehandle, unsigned diskmax, block_off_t blockcur, snapraid_info info, time_t now, int block_is_unsynced)',
+                  prologue='\tunsigned j;\n\t(void)block_is_unsynced;\n\tif (1) { /* the region text starts with the last statement and the closing brace of the parity compare block */')
 
 
 SCRUB_CLASSIFY = dict(region='scrub_classify', file='cmdline/scrub.c', scope='static int state_scrub_process(struct snapraid_state* state, struct snapraid_parity_handle* parity_handle, block_off_t blockstart, block_off_t blockmax, struct snapraid_plan* plan, time_t now)',
@@ -371,6 +371,19 @@ def c18(tier, seed):
 
 
 # ---------------------------------------------------------------- report escaping (C20)
+STATUS_LOOP = dict(region='status_loop', file='cmdline/status.c', begin='/* copy the info a temp vector, and count bad/rehash/unsynced blocks */', end='log_tag("summary:has_unsynced:%u\\n", unsynced_blocks);',
+                   max_lines=80, expect_loops=2,
+                   proto='static void region_status_loop(struct snapraid_state *state, block_off_t blockmax, time_t **timemap_p, unsigned *bad_p, block_off_t *bad_first_p, block_off_t *bad_last_p, unsigned *count_p, unsigned *rehash_p, unsigned *unsynced_p, unsigned *unscrubbed_p)',
+                   prologue='\ttime_t *timemap;\n\tunsigned bad, count, rehash, unsynced_blocks, unscrubbed_blocks;\n\tblock_off_t bad_first, bad_last, i;\n\ttommy_node *node_disk;',
+                   epilogue='\t*timemap_p = timemap; *bad_p = bad; *bad_first_p = bad_first; *bad_last_p = bad_last; *count_p = count; *rehash_p = rehash; *unsynced_p = unsynced_blocks; *unscrubbed_p = unscrubbed_blocks;')
+
+
+def status_obs():
+    return [Ob('status.summary_loop.region', 'harness/h_status.c', 'h_status_loop', inject=[STATUS_LOOP], unwind=8, small_path=True, timeout=900, mem=6, cost=6, kind='bounded', bound='at most 4 stripes, 2 disks', replay=False,
+               functions=['state_status: region "copy the info a temp vector, and count bad/rehash/unsynced blocks" (cmdline/status.c, extracted mechanically)'],
+               note='every info word and block state per stripe; info_get / fs_par2block_find by stub')]
+
+
 def c20(tier, seed):
     E = 'harness/h_esc.c'
     return [
@@ -379,7 +392,7 @@ def c20(tier, seed):
         Ob('esc.shell', E, 'h_esc_shell', ['cmdline/support.c'], unwind=14, timeout=900, mem=6, cost=5, kind='bounded',
            bound='strings of at most 5 bytes, every byte value', functions=['esc_shell / esc_shell_multi (cmdline/support.c)'],
            expect_fail=['esc_shell leaves no TAB or NEWLINE unquoted']),
-    ]
+    ] + status_obs()
 
 
 STATE_Q_REGION = dict(region='state_q', file='cmdline/state.c', begin="} else if (c == 'Q') {", end="} else if (c == 'N') {", include_begin=True, max_lines=150,
@@ -528,9 +541,15 @@ SCAN_FILE = dict(region='scan_file', file='cmdline/scan.c', begin='static void s
                  prologue='\t/* the region text is the whole body block of scan_file() followed by the opening of the next doc comment (closed by the end marker) */')
 
 
+SCAN_EMPTYDIR = dict(region='scan_emptydir', file='cmdline/scan.c', begin='static void scan_emptydir(struct snapraid_scan* scan, const char* sub)', end='struct dirent_sorted {', max_lines=50, expect_loops=0,
+                     proto='static void region_scan_emptydir(struct snapraid_scan *scan, const char *sub)', prologue='\t/* the region text is the whole body block of scan_emptydir() */')
+
+
 def scanfile_obs():
     F = 'harness/h_scanfile.c'
-    return [Ob('scan.scan_file', F, 'h_scan_file', inject=[SCAN_FILE], unwind=6, small_path=True, timeout=1800, mem=8, cost=15, replay=False,
+    return [Ob('scan.emptydir', F, 'h_scan_emptydir', inject=[SCAN_FILE, SCAN_EMPTYDIR], defs={'VERIF_EMPTYDIR': None}, unwind=6, small_path=True, timeout=600, mem=6, cost=3, replay=False,
+               functions=['scan_emptydir (cmdline/scan.c; whole body extracted mechanically, callees routed to stubs)'], note='recorded or new directory, every value of the seven change counters'),
+            Ob('scan.scan_file', F, 'h_scan_file', inject=[SCAN_FILE], unwind=6, small_path=True, timeout=1800, mem=8, cost=15, replay=False,
                functions=['scan_file (cmdline/scan.c; whole body extracted mechanically, every callee routed to a recording stub)'],
                note='every size / time-stamp / inode / link count of the entry, every recorded file found by inode and / or by path (same or another object), disk inode / uuid capabilities, --force-zero, --force-nocopy, sync and diff, two disks in the copy search'),
             Ob('scan.full_hashed', F, 'h_full_hashed', inject=[SCAN_FILE], unwind=6, small_path=True, timeout=900, mem=6, cost=4, kind='bounded', bound='files of at most 4 blocks',
@@ -592,7 +611,7 @@ def c14(tier, seed):
         Ob('parity.allocated_size', P, 'h_allocated_size', unwind=8, small_path=True, timeout=900, mem=6, cost=8, kind='bounded', bound='1..3 disks of at most 5 positions, every block state at every position',
            functions=['parity_allocated_size (cmdline/parity.c)', 'block_has_file (cmdline/elem.h)'], note='fs_size / fs_par2block_find by stub over a symbolic block table'),
     ]
-    return obs + main_obs() + scanfile_obs()[:1]
+    return obs + main_obs() + scanfile_obs()[:2]
 
 
 OPEN_NOATIME = dict(region='open_noatime', file='cmdline/unix.c', begin='int open_noatime(const char* file, int flags)', end='int dirent_hidden(struct dirent* dd)', max_lines=16, expect_loops=0,
@@ -948,7 +967,7 @@ def c16(tier, seed):
 
 def c04(tier, seed):
     c15 = [o for o in PROPS['C15']['obligations'](tier, seed) if o.name in ('scrub.mark.region', 'scrub.classify.region', 'scrub.block_is_enabled', 'scrub.info_word')]
-    return [o for o in check_obs(tier) if o.name == 'check.blockcmp'] + sync_hash_obs() + c15 + [o for o in syncrd_obs() if o.name == 'scrub.data_reader']
+    return [o for o in check_obs(tier) if o.name == 'check.blockcmp'] + sync_hash_obs() + c15 + [o for o in syncrd_obs() if o.name == 'scrub.data_reader'] + status_obs()
 
 
 def c01(tier, seed):
